@@ -371,7 +371,7 @@ def mig_cases(chk):
         for i, (conns, active) in enumerate(cfgs):
             cases.append(dict(seed=r.randrange(1, 10**6), conns=conns, active=active, nkeys=70, nout=20, clients=6, ops=330, lat=2000))
     else:
-        for i in range(36):
+        for i in range(96):
             cases.append(dict(seed=r.randrange(1, 10**6), conns=1 + i % 3, active=(i // 3) % 2, nkeys=r.choice([40, 70, 120]), nout=20,
                               clients=r.choice([4, 6, 8]), ops=r.choice([300, 400]), lat=r.choice([1000, 2000, 3000]),
                               scan_count=r.choice([2, 10, 50])))
